@@ -4,7 +4,7 @@ from __future__ import annotations
 import simplify
 
 ID = "C14"
-THEOREMS = ["proj_of_tuple", "proj_of_list", "proj_of_dict_key", "proj_of_dict_attr", "name_substituted", "rule_tuple_index", "rule_list_index"]
+THEOREMS = ["simplify_normal_form", "simp_nf", "simplify_output_wf", "proj_of_tuple", "proj_of_list", "proj_of_dict_key", "proj_of_dict_attr", "name_substituted", "rule_tuple_index", "rule_list_index"]
 RULE = (
     "generated pack chains (harness/simplify.py: gen_packchain): 2-5 Select/Where/SelectMany stages over ds in function "
     "form; every intermediate stage packages leaf expressions into a random nesting (depth <= 2) of tuples, lists and "
@@ -13,7 +13,20 @@ RULE = (
     "all-identical or random; the last stage returns a plain value (then nothing may survive) or a pack (allowed only "
     "as the final result); non-trivial = every chain; distinct = source text"
 )
-EXPLANATION = ("Theorems so far (first layer): the projection-of-literal steps (a constant index / key / attribute applied to a simplified tuple, list or dictionary literal returns the component, so neither the construction nor the projection survives) and substitution of stacked names. The shape theorem for whole pack chains is in progress. Correspondence: as C02, on generated pack chains. Oracle: node kinds of the real output: no Tuple/List/Dict node and no constant projection may remain unless it is part of the final stage's result.")
+EXPLANATION = (
+    "Main theorem simplify_normal_form (Props/C14Normal.lean, from simp_nf: induction over the fuel and every clause of the "
+    "visitor and of call_Select / call_SelectMany / call_Where, on top of the well-formedness invariant of C18): whatever the "
+    "visitor model returns for a well-formed query is a normal form (nf, Model/WfQuery.lean) - no constant projection is left "
+    "sitting on a tuple / list literal (non-negative index), on a dictionary literal that defines the key (subscript or "
+    "attribute) or on a First(...); no Select / SelectMany / Where call is left on a source it fuses with. So wherever a later "
+    "stage's projection meets the literal an earlier stage built neither survives, and stages never stay separate - for every "
+    "chain, nesting and choice of binder names. PARTIAL: that in a pack chain every projection does meet its literal (so that "
+    "no construction remains at all) is a typing argument that is not formalised; it is checked per run by the node-kind "
+    "oracle. The conclusion of the theorem is evaluated on the output of the REAL simplifier for every generated well-formed "
+    "query (driver op nf). One-step rules: proj_of_tuple, proj_of_list, proj_of_dict_key, proj_of_dict_attr, name_substituted. "
+    "Correspondence: as C02, on generated pack chains. Oracle: node kinds of the real output: no Tuple/List/Dict node and no "
+    "constant projection may remain unless it is part of the final stage's result."
+)
 
 
 def run(ctx):
